@@ -5,6 +5,26 @@ from concurrent.futures import ThreadPoolExecutor
 LEVEL = "proof"
 LIBS = ["SigmaArith.vo", "KeyRingLemmas.vo", "SigmaLemmas.vo"]
 
+
+def correspond_chunks(res, pid, out, drv, tier, seed, k):
+    """split the records over k model-driver processes; returns the list of MISMATCH lines and merges coverage into res"""
+    recs = [l for l in out.split("\n") if l.startswith("REC ")]
+    chunks = ["\n".join(recs[i::k]) + "\n" for i in range(k) if recs[i::k]]
+    def one(c):
+        r2 = vpl.Result(pid, tier, seed)
+        m, _ = vpl.correspond(r2, pid, c, drv)
+        return r2, m
+    mism = []
+    with ThreadPoolExecutor(max(1, len(chunks))) as ex:
+        for r2, m in ex.map(one, chunks):
+            mism += m
+            for key in ("evaluations", "distinct_nontrivial", "disagreements"):
+                res.cov[key] += r2.cov[key]
+            for kk, v in r2.cov.get("record_kinds", {}).items():
+                d = res.cov.setdefault("record_kinds", {}); d[kk] = d.get(kk, 0) + v
+            res.cov["samples"] += r2.cov["samples"][:1]
+    return mism
+
 def proto_groups(tier):
     g = ["vtmf", "edcf", "skc", "rabin", "hoogh:0", "groth:0", "groth:1"]
     g += ["cutchoose:%d" % i for i in range(4 if tier == "quick" else 6)]
@@ -45,7 +65,7 @@ def run(res, tier, seed, replay):
         r2, cm = None, None
         if part == "vtmf":
             r2 = vpl.Result(res.pid, tier, s)
-            cm = vpl.correspond(r2, "C03", out, drv)
+            cm = (correspond_chunks(r2, "C03", out, drv, tier, s, 3 if tier == "quick" else 6), None)
         return job, rc, out, err, r2, cm
     with ThreadPoolExecutor(min(vpl.NPROC, len(jobs))) as ex:
         done = list(ex.map(one, jobs))
